@@ -779,7 +779,7 @@ impl UntypedStmt {
                             if binding.ty == Type::Unsigned(UnsignedNumType::Unspecified)
                                 || binding.ty == Type::Signed(SignedNumType::Unspecified)
                             {
-                                check_or_constrain_signed(binding, SignedNumType::I32)?;
+                                constrain_type(binding, &Type::Signed(SignedNumType::I32))?;
                             }
                             match &mut binding.inner {
                                 ExprEnum::ArrayLiteral(exprs) | ExprEnum::TupleLiteral(exprs) => {
@@ -844,9 +844,9 @@ impl UntypedStmt {
 
                                     let mut index =
                                         index.type_check(top_level_defs, env, fns, defs)?;
-                                    check_or_constrain_unsigned(
+                                    check_type(
                                         &mut index,
-                                        UnsignedNumType::Usize,
+                                        &Type::Unsigned(UnsignedNumType::Usize),
                                     )?;
                                     Accessor::ArrayAccess { array_ty, index }
                                 }
@@ -1118,7 +1118,7 @@ impl UntypedExpr {
                 let arr = arr.type_check(top_level_defs, env, fns, defs)?;
                 let mut index = index.type_check(top_level_defs, env, fns, defs)?;
                 let elem_ty = expect_array_type(&arr.ty, arr.meta)?;
-                check_or_constrain_unsigned(&mut index, UnsignedNumType::Usize)?;
+                check_type(&mut index, &Type::Unsigned(UnsignedNumType::Usize))?;
                 (
                     ExprEnum::ArrayAccess(Box::new(arr), Box::new(index)),
                     elem_ty,
@@ -1221,7 +1221,7 @@ impl UntypedExpr {
                     let x = x.type_check(top_level_defs, env, fns, defs)?;
                     let mut y = y.type_check(top_level_defs, env, fns, defs)?;
                     expect_num_type(&x.ty, x.meta)?;
-                    check_or_constrain_unsigned(&mut y, UnsignedNumType::U8)?;
+                    check_type(&mut y, &Type::Unsigned(UnsignedNumType::U8))?;
                     (ExprEnum::Op(*op, Box::new(x.clone()), Box::new(y)), x.ty)
                 }
             },
@@ -1583,10 +1583,8 @@ impl UntypedExpr {
 
                     for (_, expr) in typed_clauses.iter_mut() {
                         if ret_ty != expr.ty {
-                            if let Type::Unsigned(expected) = ret_ty {
-                                check_or_constrain_unsigned(expr, expected)?;
-                            } else if let Type::Signed(expected) = ret_ty {
-                                check_or_constrain_signed(expr, expected)?;
+                            if let Type::Unsigned(_) | Type::Signed(_) = ret_ty {
+                                check_type(expr, &ret_ty)?;
                             } else {
                                 let e = TypeErrorEnum::UnexpectedType {
                                     expected: ret_ty.clone(),
@@ -2701,27 +2699,27 @@ fn unify(e1: &mut TypedExpr, e2: &mut TypedExpr, m: MetaInfo) -> Result<Type, Ty
     let ty = match (&e1.ty, &e2.ty) {
         (ty1, ty2) if ty1 == ty2 => ty1.clone(),
         (Type::Unsigned(UnsignedNumType::Unspecified), Type::Unsigned(ty2)) => {
-            check_or_constrain_unsigned(e1, *ty2)?;
+            constrain_type(e1, &Type::Unsigned(*ty2))?;
             Type::Unsigned(*ty2)
         }
         (Type::Unsigned(ty1), Type::Unsigned(UnsignedNumType::Unspecified)) => {
-            check_or_constrain_unsigned(e2, *ty1)?;
+            constrain_type(e2, &Type::Unsigned(*ty1))?;
             Type::Unsigned(*ty1)
         }
         (Type::Unsigned(UnsignedNumType::Unspecified), Type::Signed(ty2)) => {
-            check_or_constrain_signed(e1, *ty2)?;
+            constrain_type(e1, &Type::Signed(*ty2))?;
             Type::Signed(*ty2)
         }
         (Type::Signed(ty1), Type::Unsigned(UnsignedNumType::Unspecified)) => {
-            check_or_constrain_signed(e2, *ty1)?;
+            constrain_type(e2, &Type::Signed(*ty1))?;
             Type::Signed(*ty1)
         }
         (Type::Signed(SignedNumType::Unspecified), Type::Signed(ty2)) => {
-            check_or_constrain_signed(e1, *ty2)?;
+            constrain_type(e1, &Type::Signed(*ty2))?;
             Type::Signed(*ty2)
         }
         (Type::Signed(ty1), Type::Signed(SignedNumType::Unspecified)) => {
-            check_or_constrain_signed(e2, *ty1)?;
+            constrain_type(e2, &Type::Signed(*ty1))?;
             Type::Signed(*ty1)
         }
         _ => {
